@@ -24,6 +24,36 @@ def insert_obs(rng, lines, nkeys=12):
     return out, pos, inserted
 
 
+def clock_at(trace, q):
+    """Clock reading observed by op q (sum of the advances before it)."""
+    now = 0
+    for l in trace[:q]:
+        op, out, _ = C.split_line(l)
+        t = op.split()
+        if t and t[0] == "D" and not out.startswith("ERR"):
+            now += int(t[1])
+    return now
+
+
+def pending_maintenance(cfg, sp, now):
+    """The keys left by the maintenance EVERY operation of the single-threaded cache starts with (and that
+    contains_key therefore performs too): purge what is expired at `now`, then evict from the LRU end until
+    the weighted size is within max_capacity.  (Key universes are smaller than one batch.)  The recorded
+    finding is exactly this maintenance becoming visible; a contains_key call that removes anything else is
+    a different violation."""
+    from oracles import expired_u
+    expired = {k for k, e in sp.map.items() if expired_u(cfg, e, now)}
+    ws = sp.ws - sum(sp.map[k]["w"] for k in expired)
+    keep = set(sp.map) - expired
+    for k, _, _ in sp.prob:
+        if ws <= cfg["cap"]:
+            break
+        if k in keep:
+            keep.discard(k)
+            ws -= sp.map[k]["w"]
+    return keep
+
+
 def strip_state(line):
     op, out, _ = C.split_line(line)
     return op, C.norm_err(out)
@@ -51,7 +81,8 @@ def compare_pair(cfg, h, h2, pos, inserted, ta, tb):
                     if prev.startswith("dropped") or stq.startswith("dropped"):
                         continue
                     sp, sq = USnap(prev), USnap(stq)
-                    if sp.ws > cfg["cap"] and len(sq.map) < len(sp.map):
+                    if sp.ws > cfg["cap"] and len(sq.map) < len(sp.map) and \
+                            set(sq.map) == pending_maintenance(cfg, sp, clock_at(tb, q)):
                         known = True
                         break
             return (f"op {i} `{a[0]}` answers `{a[1]}` in h but `{b[1]}` in h' (h with contains_key/iter calls inserted)", known)
@@ -94,6 +125,11 @@ def run(pid, tier, seed, model_ok, replay):
             for i in range(n):
                 name, h = gen.gen_cache_case(rng, kind, i, profile=rng.choice(["tight", "admission", "expiry", "basic"]))
                 h = [l for l in h if l != "DROP"]
+                h2, pos, ins = insert_obs(rng, h)
+                pairs.append((name, h, h2, pos, ins))
+            for i in range(n // 4):
+                # an update-created excess pending while the clock reaches a deadline: purge/evict order matters
+                name, h = gen.gen_excess_case(rng, kind, 7000 + i)
                 h2, pos, ins = insert_obs(rng, h)
                 pairs.append((name, h, h2, pos, ins))
     cases = [(n_ + "_h", h) for n_, h, _, _, _ in pairs] + [(n_ + "_h2", h2) for n_, _, h2, _, _ in pairs]
